@@ -69,6 +69,9 @@ def render_variant(rng, prog, kind):
         for it in prog["items"]:
             if it[0] in ("label", "const"):
                 names.add(it[1])
+        # a symbol that is called like the address builtin keeps its name: written bare, `pc` means the current address,
+        # so renaming that symbol (and the bare operands with it) would change the program's meaning
+        names = set(n for n in names if n not in ("pc",))
         rename = {nm: "zz%d_%s" % (i, nm[::-1]) for i, nm in enumerate(sorted(names))}
     if kind in ("case", "space", "comment", "all"):
         rc = recase(rng) if kind in ("case", "all") else None
